@@ -325,7 +325,32 @@ class Hist:
         self.pending_q.append(("%s %d %s" % ("rrevsimc" if reverse else "rsimc", amount, ops_line(ops)), None if amt is None else [amt]))
         return amt
 
+    @staticmethod
+    def _fit(o):
+        """numbers that travel as 128-bit fields of the messages (cosmwasm Decimal / Uint128: limits, tolerances, minimums)
+        are clamped to 128 bits, whatever arithmetic produced them"""
+        cl = lambda v: v if v is None else min(v, 2 ** 128 - 1)
+        hk = lambda h: (h[:3] + (cl(h[3]), cl(h[4])) + h[5:]) if h[0] == "hswap" else \
+                       (h[:2] + (cl(h[2]),) + h[3:]) if h[0] == "hrouter" else h
+        k = o[0]
+        if k == "swap":
+            return o[:6] + (cl(o[6]), cl(o[7])) + o[8:]
+        if k == "provide":
+            return o[:8] + (cl(o[8]),) + o[9:]
+        if k == "send":
+            return o[:5] + (hk(o[5]),)
+        if k == "send_from":
+            return o[:6] + (hk(o[6]),)
+        if k == "pair_receive":
+            return o[:6] + (hk(o[6]),)
+        if k == "router_ops":
+            return o[:4] + (cl(o[4]),) + o[5:]
+        if k == "router_receive":
+            return o[:4] + (hk(o[4]),)
+        return o
+
     def do(self, o, quote=None):
+        o = self._fit(o)
         out = self.proc.ask("op " + op_line(o)).split()
         ok = out[0] == "ok"
         ne = int(out[1])
@@ -615,7 +640,7 @@ def gen_swap(h, rng, p, u, limits=True):
         ms = rng.choice([0, 10 ** 15, 10 ** 16, 5 * 10 ** 16, 5 * 10 ** 17, D])
         if rng.random() < 0.6 and r[1 - i] > 0:
             bp = max(1, ro * D // max(1, r[1 - i]))
-            bp = bp * rng.choice([100, 100, 99, 101, 50, 200]) // 100
+            bp = min(bp * rng.choice([100, 100, 99, 101, 50, 200]) // 100, 2 ** 128 - 1)     # a cosmwasm Decimal holds 128 bits
     to = rng.choice([None, None, None, rng.choice(h.users()), p])
     bad = rng.random() < 0.12
     if offer[0] == "n":
@@ -1616,7 +1641,7 @@ def guard_histories(rng, tier):
                     q = h.query("sim %d %s %d" % (p, a_line(offer), amount))
                     if q and q[0] > 0:
                         # belief price at the executed price, spread limit right at / next to the actual spread
-                        bp = amount * D // q[0]
+                        bp = min(amount * D // q[0], 2 ** 128 - 3)
                         ms = rng.choice([0, 1, 10 ** 15, q[1] * D // max(1, q[0] + q[1]), q[1] * D // max(1, q[0] + q[1]) + 1])
                         if o[0] == "swap":
                             o = o[:6] + (rng.choice([bp, bp - 1, bp + 1, None]), ms) + o[8:]
